@@ -171,6 +171,13 @@ type c16Event struct {
 	layer string // bg border text
 }
 
+// c16Obs: an observed paint with where it was drawn
+type c16Obs struct {
+	ev     c16Event
+	canvas int
+	clips  int // clips active on that canvas (within the open save/restore frames)
+}
+
 type c16Lists struct{ neg, zero, pos []*c16Node }
 
 // hoist collects, in tree order, the descendants of n that belong to the enclosing real stacking context.
@@ -267,9 +274,21 @@ func c16Paint(n *c16Node, kids []*c16Node, real bool, out *[]c16Event) {
 
 // c16Observed decodes the paint events of the trace through the colours.
 func c16Observed(r *wr.Rendered) []c16Event {
-	type state struct{ fill, stroke [3]float32 }
+	obs := c16ObservedFull(r)
+	out := make([]c16Event, len(obs))
+	for i, o := range obs {
+		out[i] = o.ev
+	}
+	return out
+}
+
+func c16ObservedFull(r *wr.Rendered) []c16Obs {
+	type state struct {
+		fill, stroke [3]float32
+		clips        int
+	}
 	stacks := map[int][]state{}
-	var out []c16Event
+	var out []c16Obs
 	decode := func(col [3]float32) (c16Event, bool) {
 		id := int(col[0]*255 + 0.5)
 		g := int(col[1]*255 + 0.5)
@@ -287,11 +306,12 @@ func c16Observed(r *wr.Rendered) []c16Event {
 		}
 		return c16Event{}, false
 	}
+	var curCanvas, curClips int
 	add := func(e c16Event) {
-		if len(out) > 0 && out[len(out)-1] == e {
+		if len(out) > 0 && out[len(out)-1].ev == e {
 			return
 		}
-		out = append(out, e)
+		out = append(out, c16Obs{e, curCanvas, curClips})
 	}
 	for _, e := range r.Rec.Events {
 		st := stacks[e.Canvas]
@@ -299,7 +319,10 @@ func c16Observed(r *wr.Rendered) []c16Event {
 			st = []state{{}}
 		}
 		top := &st[len(st)-1]
+		curCanvas, curClips = e.Canvas, top.clips
 		switch e.Op {
+		case "Clip":
+			top.clips++
 		case "Push":
 			st = append(st, *top)
 		case "Pop":
@@ -457,6 +480,119 @@ func c16Check(ci interface{}) Verdict {
 		v.Labels = ls
 		return v
 	}
+	// opacity and overflow apply to the whole sub-tree (order alone does not show it)
+	obs := c16ObservedFull(r)
+	parentOf := map[int]int{} // canvas -> parent canvas
+	for _, cv := range r.Rec.Canvases {
+		if cv.Parent != nil {
+			parentOf[cv.ID] = cv.Parent.ID
+		}
+	}
+	within := func(c, g int) bool {
+		for k := 0; c != 0 && k < 64; k++ {
+			if c == g {
+				return true
+			}
+			c = parentOf[c]
+		}
+		return false
+	}
+	byID := map[int]*c16Node{}
+	for _, n := range nodes {
+		byID[n.id] = n
+	}
+	inSubtree := func(m, n *c16Node) bool {
+		for ; m != nil; m = m.parent {
+			if m == n {
+				return true
+			}
+		}
+		return false
+	}
+	for _, n := range nodes {
+		if n.b.Opacity {
+			g := -1
+			for _, o := range obs {
+				if o.ev.box == n.id && o.ev.layer == "bg" {
+					g = o.canvas
+				}
+			}
+			if g < 0 {
+				continue
+			}
+			outer := -1
+			for _, o := range obs {
+				m := byID[o.ev.box]
+				if m == nil {
+					continue
+				}
+				if inSubtree(m, n) {
+					if !within(o.canvas, g) {
+						v := Viol("opacity:descendant-outside-group", "box %d has opacity but %d.%s of its sub-tree is not drawn into its group (canvas %d, group %d)\n%s", n.id, o.ev.box, o.ev.layer, o.canvas, g, html)
+						v.Labels = ls
+						return v
+					}
+				} else if within(o.canvas, g) && !inSubtree(n, m) {
+					v := Viol("opacity:foreign-box-in-group", "box %d.%s, outside the sub-tree of box %d, is drawn into that box's opacity group\n%s", o.ev.box, o.ev.layer, n.id, html)
+					v.Labels = ls
+					return v
+				} else if !within(o.canvas, g) {
+					outer = o.canvas
+				}
+			}
+			if outer == g {
+				v := Viol("opacity:no-group", "box %d has opacity but is drawn on the same canvas as the boxes around it\n%s", n.id, html)
+				v.Labels = ls
+				return v
+			}
+			// the group is composited with the opacity
+			used := false
+			for _, e := range r.Rec.Events {
+				if e.Op == "DrawWithOpacity" && e.Ref == g && len(e.F) > 0 && e.F[0] > 0.49 && e.F[0] < 0.51 {
+					used = true
+				}
+			}
+			if !used && !overflowStatic {
+				v := Viol("opacity:group-not-composited", "the group of box %d is never drawn with opacity 0.5\n%s", n.id, html)
+				v.Labels = ls
+				return v
+			}
+		}
+		if n.b.Overflow {
+			base := -1
+			canvas := -1
+			// (backgrounds are painted under clips of their own: borders and texts are compared)
+			for _, o := range obs {
+				if o.ev.box == n.id && o.ev.layer == "border" {
+					base, canvas = o.clips, o.canvas
+				}
+			}
+			if base < 0 {
+				continue
+			}
+			for _, o := range obs {
+				m := byID[o.ev.box]
+				if m == nil || m == n || !inSubtree(m, n) || o.canvas != canvas || o.ev.layer == "bg" {
+					continue
+				}
+				// absolutely positioned boxes whose containing block lies outside the box are not clipped by it
+				escapes := false
+				for k := m; k != n; k = k.parent {
+					if k.b.Pos == "absolute" {
+						escapes = true
+					}
+				}
+				if escapes {
+					continue
+				}
+				if o.clips <= base {
+					v := Viol("overflow:descendant-not-clipped", "box %d has overflow:hidden but %d.%s of its sub-tree is drawn with no more clip regions active (%d) than the box's own border (%d)\n%s", n.id, o.ev.box, o.ev.layer, o.clips, base, html)
+					v.Labels = ls
+					return v
+				}
+			}
+		}
+	}
 	return Verdict{NonTrivial: nz >= 2 || labels["float"], Labels: ls}
 }
 
@@ -470,7 +606,7 @@ func init() {
 		QuickN:           12000,
 		ThoroughN:        400000,
 		Rule: "Stacking scenes: 2-9 boxes nested up to 3 deep, each a block, float or inline-block with its own background, border and text colour and a text; four in ten relative or absolute positioned with z-index in {auto, 0, 1, 1, 2, -1, -1, -2}, one in four with opacity, transform or overflow:hidden; negative margins and offsets make boxes overlap. One scene in eight is a wide context of 10-28 positioned siblings sharing few z-index values. " +
-			"Oracle: a reference of CSS 2.1 Appendix E (stacking context tree; per context: background and border of the root box, negative z-index contexts ascending with ties in tree order, in-flow block backgrounds and borders in tree order, floats atomically, inline content (texts and inline-blocks) in tree order, positioned boxes with z-index auto/0 and z-index-0 contexts in tree order with the hoisting of positioned descendants out of pseudo contexts, positive contexts ascending with ties in tree order) gives the expected sequence of (box, layer) paints; the observed sequence is decoded from the fill colours of Paint and DrawText calls of the backend trace in chronological order (groups are drawn where they are composited); both must be equal. " +
+			"Oracle: a reference of CSS 2.1 Appendix E (stacking context tree; per context: background and border of the root box, negative z-index contexts ascending with ties in tree order, in-flow block backgrounds and borders in tree order, floats atomically, inline content (texts and inline-blocks) in tree order, positioned boxes with z-index auto/0 and z-index-0 contexts in tree order with the hoisting of positioned descendants out of pseudo contexts, positive contexts ascending with ties in tree order) gives the expected sequence of (box, layer) paints; the observed sequence is decoded from the fill colours of Paint and DrawText calls of the backend trace in chronological order (groups are drawn where they are composited); both must be equal. Then: every paint of the sub-tree of an opacity box lies on that box's group canvas, nothing foreign does, and the group is composited with that opacity; borders and texts below an overflow:hidden box are drawn with more clip regions active than the box's own border. " +
 			"Non-trivial: >= 2 boxes with explicit z-index, or a float.",
 		ImportantLabels: []string{"z-ties", "negative-z", "nested-context", "opacity", "transform", "overflow-hidden", "float", "wide-context"},
 		Assumptions:     []string{"outlines are not generated", "the trace order of group contents is taken as their paint order (a group is composited right after its content is recorded)"},
